@@ -18,7 +18,12 @@ C07 model: re-encoding a received UPDATE.
 
 The typed attributes, `WireformatPathAttribute::parse` and `to_owned` are those
 of Rc/Model/Attr.lean (C04); the NLRI codecs those of Rc/Model/Nlri.lean (C05).
-Four-octet session without ADD-PATH (`SessionConfig::modern()`).
+The definitions `ownedList` … `viaBuilder` are those of a four-octet session
+(`SessionConfig::modern()`); `ownedListW` … `viaBuilderW` take the AS number
+width of the session (`false` = `SessionConfig::legacy()`) and agree with them
+at `true` by `rfl` (`ownedListW_true` …).  `PathAttribute::compose` has no
+session argument: whatever the width of the session, AS_PATH and AGGREGATOR are
+written with four-octet AS numbers (`Rc.Attr.composeValue`).
 Core Lean only (the driver links this file).
 -/
 import Rc.Model.Attr
@@ -244,6 +249,75 @@ def viaBuilder (sec : Bytes) : Outcome Bytes :=
   | .ok m => finishAttrs m
   | .err => .err
   | .panic => .panic
+
+/-! ### the three routes in a session of either AS number width
+
+`pdu.path_attributes()` hands the session's `PduParseInfo` to `validate` and
+`parse` (path_attributes.rs:1111, 1293: AS_PATH and AGGREGATOR are read two
+octets wide in a two-octet session; AS4_PATH is four octets wide in both, after
+the repair F30).  Composing does not depend on the session. -/
+
+def ownedListW (four : Bool) (sec : Bytes) : Outcome (List Decoded) :=
+  match decAll four sec.length sec with
+  | .ok ds => allOk ds
+  | .err => .err
+  | .panic => .panic
+
+def directW (four : Bool) (sec : Bytes) : Outcome Bytes :=
+  match ownedListW four sec with
+  | .ok ds => encList ds
+  | .err => .err
+  | .panic => .panic
+
+def mapOfW (four : Bool) (sec : Bytes) : Outcome (List Decoded) :=
+  match decAll four sec.length sec with
+  | .ok ds => fromPdu ds []
+  | .err => .err
+  | .panic => .panic
+
+def viaMapW (four : Bool) (sec : Bytes) : Outcome Bytes :=
+  match mapOfW four sec with
+  | .ok m => encList m
+  | .err => .err
+  | .panic => .panic
+
+/-- `into_message(&session_config)` re-parses what `finish` wrote with
+`UpdateMessage::from_octets`, which validates the attributes with
+`PduParseInfo::default()` whatever the session (update.rs:945): `finishAttrs`
+serves both widths -/
+def viaBuilderW (four : Bool) (sec : Bytes) : Outcome Bytes :=
+  match mapOfW four sec with
+  | .ok m => finishAttrs m
+  | .err => .err
+  | .panic => .panic
+
+theorem ownedListW_true (sec : Bytes) : ownedListW true sec = ownedList sec := rfl
+theorem directW_true (sec : Bytes) : directW true sec = direct sec := rfl
+theorem mapOfW_true (sec : Bytes) : mapOfW true sec = mapOf sec := rfl
+theorem viaMapW_true (sec : Bytes) : viaMapW true sec = viaMap sec := rfl
+theorem viaBuilderW_true (sec : Bytes) : viaBuilderW true sec = viaBuilder sec := rfl
+
+/-- does an attribute's encoding depend on the AS number width of the session?
+An AS_PATH that is well formed two octets wide and holds an AS number, or a
+six-octet AGGREGATOR (the request lines `re2w` of the C07 correspondence hold
+one, the lines `re2` none) -/
+def hasAsn2 : Nat → Bytes → Bool
+  | 0, _ => false
+  | f + 1, bs =>
+    match bs with
+    | _ :: n :: r => n.toNat > 0 || hasAsn2 f (r.drop (2 * n.toNat))
+    | _ => false
+
+def widthDependent (tc : Nat) (v : Bytes) : Bool :=
+  (tc == 2 && pathValid false v && hasAsn2 v.length v) || (tc == 7 && v.length == 6)
+
+/-- over the header walk that stops at the first framing error -/
+def hasWidthDependent : Nat → Bytes → Bool
+  | 0, _ => false
+  | f + 1, bs =>
+    match splitAttr bs with
+    | none => false
+    | some (_, tc, v, r) => widthDependent tc.toNat v || hasWidthDependent f r
 
 /-! ### NLRI re-added -/
 
